@@ -1,0 +1,43 @@
+//go:build verif
+
+package trienode
+
+// Contracts for gocv (contract-based deductive verification, /verif).
+
+//@ opaque type github.com/NethermindEth/juno/core/felt.Felt
+
+// Node hashes of the new trie, with the hash function and felt arithmetic uninterpreted:
+//   value / hash node: the stored felt;  binary: H(left, right);  edge: H(child, path) + len(path).
+//@ ghost func nodeHash(n _) felt.Felt
+//@ ghost func feltOfPath(p _) felt.Felt
+//@ ghost func feltOfLenBytes(b _) felt.Felt
+//@ ghost func feltAdd(a felt.Felt, b felt.Felt) felt.Felt
+//@ extern func github.com/NethermindEth/juno/core/trie2/trienode.Node.Hash
+//@   ensures result == nodeHash(recv)
+//@ extern func github.com/NethermindEth/juno/core/trie2/trieutils.(*BitArray).Felt
+//@   ensures result == feltOfPath(*b)
+//@ extern func github.com/NethermindEth/juno/core/trie2/trieutils.(*BitArray).Len
+//@   ensures result == b.len
+//@ extern func github.com/NethermindEth/juno/core/felt.FromBytes
+//@   ensures result == feltOfLenBytes(value[31])
+//@ extern func github.com/NethermindEth/juno/core/felt.(*Felt).Add
+//@   modifies *z
+//@   ensures *z == feltAdd(old(*x), old(*y))
+
+//@ func (*BinaryNode).Hash
+//@   props C01
+//@   arith int
+//@   requires n != nil && n.Children[0] != nil && n.Children[1] != nil
+//@   purecallback hf
+//@   callsite hf@1: preimage: *$0 == nodeHash(n.Children[0]) && *$1 == nodeHash(n.Children[1])
+//@   ensures result == ret(hf) && calls(hf) == old(calls(hf)) + 1
+
+//@ func (*EdgeNode).Hash
+//@   props C01
+//@   arith int
+//@   requires n != nil && n.Child != nil && n.Path != nil
+//@   purecallback hf
+//@   callsite hf@1: child: *$0 == nodeHash(n.Child)
+//@   callsite hf@1: path: *$1 == feltOfPath(*n.Path)
+//@   ensures result == feltAdd(ret(hf), feltOfLenBytes(n.Path.len)) && calls(hf) == old(calls(hf)) + 1
+
